@@ -227,6 +227,21 @@ def run(ctx):
     ok = cl and any(m.get("k") == "Call" and (m["func"].get("path") or "").endswith("compile_literal_lowercase") and (m["args"][1].get("s") == "name") for m in walk(cl[0].node["body"]))
     if not ok:
         r.violate("compile_operands|name-lowercased", "attribute names of comparison selectors are no longer lower-cased at compile time", "src/selectors_vm/compiler.rs")
+    # only names are case-folded at compile time: values keep their case (the `i` flag decides at match time)
+    low_sites = []
+    for f in mir.fns:
+        if mir.is_test_fn(f):
+            continue
+        for bi, t in f.calls(r"compile_literal_lowercase$"):
+            low_sites.append((f.key, f.deep(t["args"][1])))
+    val_sites = []
+    for f in mir.fns:
+        if f.key.endswith("compile_operands") and not mir.is_test_fn(f):
+            for bi, t in f.calls(r"compile_literal$"):
+                val_sites.append(f.deep(t["args"][1]))
+    r.inst("compile_operands|value-keeps-case", sample={"lowercased_operands": low_sites, "as_is_operands": val_sites})
+    if [d for _, d in low_sites] != ["name"] or val_sites != ["value"]:
+        r.violate("compile_operands|value-keeps-case", f"literals lower-cased at compile time: {low_sites}; compiled as written in compile_operands: {val_sites} - expected exactly the attribute name to be folded and the value to be kept: `[a=\"FooBar\"]` would otherwise match `foobar` and miss `FooBar`", "src/selectors_vm/compiler.rs")
     cll = [f for f in idx.fns if f.name == "compile_literal_lowercase"]
     r.inst("compile_literal_lowercase")
     if not cll or not any(m.get("k") == "MethodCall" and m["method"] == "make_ascii_lowercase" for m in walk(cll[0].node["body"])):
